@@ -564,7 +564,7 @@ static int split_drive(int start, int nexec)
 			if (x % 4 == 3)
 			{
 				gen_long_token(0);
-				splits_of_text(fl, 32, TL > 1500 ? 30 : 400);
+				splits_of_text(fl, 32, TL > 1500 ? 12 : TL > 600 ? 100 : 400); /* (a several-KiB text travels with every event) */
 				continue;
 			}
 			gen_doc(2 + (int)vh_below(4), 4 + (int)vh_below(20));
